@@ -27,7 +27,8 @@ def opTable : List (String × (Json → R Json)) := [
   ("selects", Ops.opSelects),
   ("audit", Ops.opAudit),
   ("hash", Ops.opHash),
-  ("price", Ops.opPrice)
+  ("price", Ops.opPrice),
+  ("parse", Ops.opParse)
 ]
 
 def dispatch (j : Json) : R Json := do
